@@ -129,12 +129,17 @@ class Sched:
             self.choices.append(c)
             last = pick
             step += 1
-            for j in range(self.n):
-                if j != pick:
-                    self.woken[j] = True
+            was_blocked = self.state[pick] == "blocked"
             self.woken[pick] = False
             self.sems[pick].release()
             self.main.acquire()
+            # A worker that was waiting for a lock, retried and is waiting again has changed nothing: only a step that made
+            # progress gives the other waiting workers a reason to retry (otherwise three workers that all wait keep waking
+            # each other and one execution runs for thousands of pointless scheduling points).
+            if not (was_blocked and self.state[pick] == "blocked"):
+                for j in range(self.n):
+                    if j != pick:
+                        self.woken[j] = True
             if step > 4000:
                 self.giveup = True
         for t in ths:
@@ -598,20 +603,21 @@ def main(run):
         chunks.append((cond, 2, 2))
     if not q:
         for cond in CONDITIONS:
-            # three workers: two preemptions, but one where every worker also writes the bootstrap page (that tree has more
-            # than 100,000 schedules per slice with two)
-            b3 = 2 if cond["bootstrap"] else 1
+            # three workers only where the bootstrap page exists: where every worker also writes it, each lock wait is a
+            # free (non-preempting) choice among two other workers and the tree does not finish within an hour even with one
+            # preemption; those conditions are explored with two workers and up to three preemptions
             for k in range(8):     # eight slices of each search tree (see explore)
                 chunks.append((cond, 2, 3, (k, 8)))
-                chunks.append((cond, 3, b3, (k, 8)))
+                if cond["bootstrap"]:
+                    chunks.append((cond, 3, 2, (k, 8)))
     # biggest first: slice 0 of a tree holds the root's deepest alternatives
     chunks.sort(key=lambda c: (len(c) > 3 and c[3][0] != 0, -c[1], -c[2]))
     done = 0
     for cid, acc, hung in run_chunks(work, chunks, nproc=run.nproc, case_timeout=120):
         run.acc.merge(acc)
         done += 1
-        if done % 20 == 0 or done == len(chunks):
-            run.log("chunks", done, "/", len(chunks), "schedules", run.acc.n, "last:", chunks[cid][0]["name"], chunks[cid][1:])
+        if done % 20 == 0 or done == len(chunks) or run.tier != "quick":
+            run.log("chunks", done, "/", len(chunks), "schedules", run.acc.n, "done:", chunks[cid][0]["name"], chunks[cid][1:], "with", acc.n)
     states = len(run.acc.sets.pop("states", ()))
     trans = len(run.acc.sets.pop("transitions", ()))
     free = {}
@@ -630,7 +636,7 @@ def main(run):
                 "plus, for every condition, three worker PROCESSES run one after the other (with the preparing context still open where the condition says so); "
                 "a state is a distinct tuple (next operation and status of every worker) seen at a scheduling point, a transition a "
                 "distinct (state, chosen worker); every schedule is an execution of the real code on a fresh copy of the database "
-                "directory; prefix replay divergence is a hard error" % ("" if q else "; N=2 with <= 3; N=3 with <= 2 (<= 1 under the conditions without the bootstrap page)"),
+                "directory; prefix replay divergence is a hard error" % ("" if q else "; N=2 with <= 3 preemptions; N=3 with <= 2 under the seven conditions in which the bootstrap page exists"),
         "free_running_failures(evidence only)": free,
         "exhaustive": True,
         "bound": "preemptions <= %d" % (2 if q else 3),
